@@ -604,8 +604,6 @@ class io_epoll_context::read_sender {
 
       UNIFEX_ASSERT(static_cast<completion_base&>(self).enqueued_.load() == 0);
 
-      self.stopCallback_.destruct();
-
       auto oldState = self.state_.fetch_add(
           io_epoll_context::read_sender::operation<Receiver>::io_flag,
           std::memory_order_acq_rel);
@@ -614,9 +612,11 @@ class io_epoll_context::read_sender {
                Receiver>::cancel_pending_mask) != 0) {
         // io has been cancelled by a remote thread.
         // The other thread is responsible for enqueueing the operation
-        // completion
+        // completion, which also destroys the stop callback.
         return;
       }
+
+      self.stopCallback_.destruct();
 
       epoll_event event = {};
       (void)epoll_ctl(
@@ -654,6 +654,7 @@ class io_epoll_context::read_sender {
       if (static_cast<completion_base&>(self).enqueued_.load() == 0) {
         // Avoid instantiating set_done() if we're not going to call it.
         if constexpr (is_stop_ever_possible) {
+          self.stopCallback_.destruct();
           unifex::set_done(std::move(self.receiver_));
         } else {
           // This should never be called if stop is not possible.
@@ -833,8 +834,6 @@ class io_epoll_context::write_sender {
 
       UNIFEX_ASSERT(static_cast<completion_base&>(self).enqueued_.load() == 0);
 
-      self.stopCallback_.destruct();
-
       epoll_event event = {};
       (void)epoll_ctl(
           self.context_.epollFd_.get(), EPOLL_CTL_DEL, self.fd_, &event);
@@ -847,9 +846,11 @@ class io_epoll_context::write_sender {
                Receiver>::cancel_pending_mask) != 0) {
         // io has been cancelled by a remote thread.
         // The other thread is responsible for enqueueing the operation
-        // completion
+        // completion, which also destroys the stop callback.
         return;
       }
+
+      self.stopCallback_.destruct();
 
       auto result = writev(self.fd_, self.buffer_, 1);
       UNIFEX_ASSERT(result != -EAGAIN);
@@ -883,6 +884,7 @@ class io_epoll_context::write_sender {
       if (static_cast<completion_base&>(self).enqueued_.load() == 0) {
         // Avoid instantiating set_done() if we're not going to call it.
         if constexpr (is_stop_ever_possible) {
+          self.stopCallback_.destruct();
           unifex::set_done(std::move(self.receiver_));
         } else {
           // This should never be called if stop is not possible.
